@@ -119,6 +119,12 @@ def tie_spec(seed: int) -> Dict[str, Any]:
             ren[e["id"]] = nm(e["id"].rstrip("0123456789_") or pref, i)
     if len(set(ren.values())) == len(ren):
         _rename(spec, ren)
+    # (f) two human drivers going home to the same base (whose private membership the base ends up with must not depend on
+    # iteration order)
+    if seed % 4 == 3:
+        humans = [v for v in spec["vehicles"] if v.get("home_base")]
+        if len(humans) >= 2:
+            humans[1]["home_base"] = humans[0]["home_base"]
     spec["global"]["log_events"] = False
     return spec
 
@@ -203,7 +209,7 @@ def run_exec(case: Dict[str, Any]) -> Dict[str, Any]:
         error = {"type": type(e).__name__, "where": f"{os.path.basename(last.filename)}:{last.name}", "message": str(e)[:300], "after_steps": len(steps)}
     finally:
         cleanup(ctx)
-    return {"id": case["id"], "scenario": case["scenario"], "hashseed": os.environ.get("PYTHONHASHSEED"), "solo": bool(case.get("solo")), "position_in_process": _bump_position(), "steps": steps, "summary": summary, "error": error, "hook_calls": dict(hooks.REC.calls), "violations": [], "counters": {"steps": len(steps)}}
+    return {"id": case["id"], "scenario": case["scenario"], "hashseed": os.environ.get("PYTHONHASHSEED"), "tz": os.environ.get("TZ"), "solo": bool(case.get("solo")), "position_in_process": _bump_position(), "steps": steps, "summary": summary, "error": error, "hook_calls": dict(hooks.REC.calls), "violations": [], "counters": {"steps": len(steps)}}
 
 
 _POSITION = [0]
@@ -212,6 +218,10 @@ _POSITION = [0]
 def _bump_position() -> int:
     _POSITION[0] += 1
     return _POSITION[0] - 1
+
+
+# POSIX TZ strings (no tz database needed); None = the sandbox's own setting (UTC)
+TZS = [None, "MST7", "JST-9", "CET-1CEST,M3.5.0,M10.5.0/3"]
 
 
 def shipped_spec(which, overrides=None):
@@ -246,8 +256,11 @@ def build_cases(tier, seed):
         ctrl = {"stack": ["Dispatcher", "ChargingFleetManager", {"hostile": {"p": 0.2, "seed": 7}}]} if name.startswith("tie") and j % 3 == 2 else None
         if name.startswith("queue"):
             ctrl = {"stack": ["ChargingFleetManager", {"benign_queue": {"p_leave": 0.05, "p_abandon": 0.02, "seed": 3}}]}
-        for hs in hss:
-            cases.append({"engine": "c01_exec", "id": f"C01-{name}-hs{hs}-{len(cases)}", "scenario": name, "spec": spec, "steps": st, "hashseed": hs, "controller": ctrl})
+        for k, hs in enumerate(hss):
+            c = {"engine": "c01_exec", "id": f"C01-{name}-hs{hs}-{len(cases)}", "scenario": name, "spec": spec, "steps": st, "hashseed": hs, "controller": ctrl}
+            if TZS[k % len(TZS)]:
+                c["env"] = {"TZ": TZS[k % len(TZS)]}  # "whichever process runs it": the host's time zone is a property of the process
+            cases.append(c)
         # the first seed is repeated in a process of its own: plain process-to-process repeatability, and "first simulation
         # this interpreter loads" against "loaded after other scenarios in the same interpreter" (the shared workers above)
         cases.append({"engine": "c01_exec", "id": f"C01-{name}-hs{hss[0]}-solo-{len(cases)}", "scenario": name, "spec": spec, "steps": st, "hashseed": hss[0], "controller": ctrl, "solo": True})
@@ -268,7 +281,7 @@ def main(tier, seed):
 
     def summarize(v, results, by_id):
         v.rule = (
-            "each scenario is executed in separate interpreter processes under different PYTHONHASHSEED values (one repeated); every process reports per-step fingerprints of all entities (instance ids dropped, set-valued fields sorted), "
+            "each scenario is executed in separate interpreter processes under different PYTHONHASHSEED values and host time zones (TZ), once alone in a process of its own and otherwise after other scenarios in shared processes whose order differs; every process reports per-step fingerprints of all entities (instance ids dropped, set-valued fields sorted), "
             "the multiset of canonicalised events of each step and the summary statistics; any difference is a violation with the first diverging step and entity as witness. Scenarios are tie-rich: equally ranked plug types, stations at equal "
             "grid distance in different search cells, vehicles in several fleets, nested tariff regions, several id naming schemes, plus the shipped denver_demo_fleets scenario. non-trivial = a scenario in which the code faced at least one counted tie; distinct = scenario"
         )
@@ -298,7 +311,7 @@ def main(tier, seed):
                 if w is not None:
                     case = by_id.get(o["id"], {})
                     v.violate(w["mechanism"], f"scenario {name}: hash seed {ref['hashseed']} vs {o['hashseed']}: {w['message']}", {"differential": [by_id.get(ref["id"], {}), case]}, **w.get("witness", {}))
-            v.samples.append({"scenario": name, "executions": len(rs), "hash_seeds": [r["hashseed"] for r in rs], "steps": len(ref["steps"]), "events": sum(s["n_events"] for s in ref["steps"]), "ties": {k: hc.get(k, 0) for k in ties}})
+            v.samples.append({"scenario": name, "executions": len(rs), "hash_seeds": [r["hashseed"] for r in rs], "time_zones": sorted({str(r.get("tz")) for r in rs}), "steps": len(ref["steps"]), "events": sum(s["n_events"] for s in ref["steps"]), "ties": {k: hc.get(k, 0) for k in ties}})
         v.coverage["executions_compared"] = compared
         v.coverage["executions_after_other_scenarios_in_the_same_process"] = after_others
         v.floor("executions_after_other_scenarios_in_the_same_process", after_others, len(by_scen))
